@@ -297,6 +297,8 @@ class SettingsMachine(object):
             if vals[0].lower() in ("[]", "none"):
                 return []
             return [convert(v) for v in vals]
+        if len(vals) > 1:
+            return _ANY  # several tokens for a scalar parameter: unspecified
         return convert(vals[0])
 
 
